@@ -140,6 +140,9 @@ def hard_check(solver, timeout_s, value_of=()):
     return ans, vals
 
 
+_CONE_CACHE = {}
+
+
 class Decider:
     def __init__(self, assume=(), seed=0, hint_spec=(), t_short=10, t_long=120, rounds=4, lemmas=True):
         self.assume = list(assume)
@@ -149,6 +152,8 @@ class Decider:
         self.symcache = {}
         self.solver_time = 0.0
         self.hard_checks = 0
+        self._cone_cache = _CONE_CACHE        # process-wide: term ids are global
+        self.vacuous = []
         self.smt2 = []           # (name, smt2 text, verdict) of precise-phase proofs (for cross-solver re-check)
         self.keep_smt2 = False
 
@@ -188,6 +193,28 @@ class Decider:
         rb, _ = self._phase_b(tm.TRUE, A, want_model=False)
         return rb
 
+    def cone_sat(self, A):
+        """vacuity guard per proof: the assumptions a proof actually used (its cone) must be satisfiable"""
+        key = tuple(sorted(a.id for a in A))
+        if key in self._cone_cache: return self._cone_cache[key]
+        if not A:
+            self._cone_cache[key] = "sat"; return "sat"
+        s = self._solver(10); memo = {}; ufs = {}
+        for a in A: s.add(tm.to_z3(a, memo, ufs))
+        r = self._check(s, hard=(10 if is_nonlinear(A) else None))
+        if r == "unknown":
+            r, _ = self._phase_b(tm.TRUE, A, want_model=False)
+            if r != "sat": r = "unknown"
+        self._cone_cache[key] = r
+        return r
+
+    def _proved(self, A, phase, t0, name):
+        cs = self.cone_sat(A)
+        if cs == "unsat":
+            self.vacuous.append(name)
+            return dict(verdict="unknown", phase=phase + "/vacuous", ms=1000 * (time.time() - t0))
+        return dict(verdict="unsat", phase=phase, ms=1000 * (time.time() - t0))
+
     # -- main entry
     def refute(self, goal, extra=(), name=""):
         """reachability twins: only a counterexample is of interest (A0 is kept: proving a twin is a harness error)"""
@@ -218,7 +245,7 @@ class Decider:
             for a in A: s.add(tm.to_z3(a, memo, ufs, abstract=True))
             s.add(tm.to_z3(ng, memo, ufs, abstract=True))
             if self._check(s) == "unsat":
-                return dict(verdict="unsat", phase="A0", ms=1000 * (time.time() - t0))
+                return self._proved(A, "A0", t0, name)
         # B (one cheap round first: a satisfiable query is usually refuted here in milliseconds)
         rb, model = self._phase_b(goal, A, rounds=1)
         if rb == "sat":
@@ -226,14 +253,14 @@ class Decider:
         if not goal.is_const:
             r1 = self._a1(A, ng, self.t_short, name)
             if r1 == "unsat":
-                return dict(verdict="unsat", phase="A1", ms=1000 * (time.time() - t0))
+                return self._proved(A, "A1", t0, name)
         rb, model = self._phase_b(goal, A, first_round=1)
         if rb == "sat":
             return dict(verdict="sat", phase="B", ms=1000 * (time.time() - t0), model=model)
         if not goal.is_const and self.t_long > self.t_short:
             r1 = self._a1(A, ng, self.t_long, name)
             if r1 == "unsat":
-                return dict(verdict="unsat", phase="A1-long", ms=1000 * (time.time() - t0))
+                return self._proved(A, "A1-long", t0, name)
         return dict(verdict="unknown", phase="A1+B", ms=1000 * (time.time() - t0))
 
     def _a1(self, A, ng, timeout, name):
